@@ -25,6 +25,10 @@
 package policy
 
 import (
+	"sync/atomic"
+
+	"k8s.io/apimachinery/pkg/apis/meta/v1"
+	"k8s.io/apimachinery/pkg/labels"
 	"k8s.io/client-go/kubernetes"
 	corev1Lister "k8s.io/client-go/listers/core/v1"
 	networkingv1Lister "k8s.io/client-go/listers/networking/v1"
@@ -35,18 +39,34 @@ import (
 
 // verifSyncedInformer stands in for the pod informer of initInformers: PolicyManager only ever asks it
 // HasSynced(). Every other method of the embedded (nil) interface panics, which the simulator reports as
-// harness trouble.
+// harness trouble. It models the life cycle the real informer has: not synced until the pod informer factory
+// is started, which startPodInformerFactory does the first time a NetworkPolicy is seen (AddPolicy, or
+// syncNetworkPolices finding a non-empty list), and synced for good afterwards. Since the real Once is
+// pre-fired here, "a policy has been seen" is read off the policy lister: the first HasSynced() call that
+// finds a policy there flips the state.
 type verifSyncedInformer struct {
 	cache.SharedIndexInformer
-	synced bool
+	synced       *int32
+	policyLister networkingv1Lister.NetworkPolicyLister
 }
 
-func (i verifSyncedInformer) HasSynced() bool { return i.synced }
+func (i verifSyncedInformer) HasSynced() bool {
+	if atomic.LoadInt32(i.synced) == 1 {
+		return true
+	}
+	list, err := i.policyLister.NetworkPolicies(v1.NamespaceAll).List(labels.Everything())
+	if err == nil && len(list) > 0 {
+		atomic.StoreInt32(i.synced, 1)
+		return true
+	}
+	return false
+}
 
 // VerifNew builds a PolicyManager around the given handles and listers. No informer is created or started;
 // podInformerOnce is pre-fired so that startPodInformerFactory (AddPolicy, syncNetworkPolices) is a no-op.
-// podInformerSynced is what the stand-in pod informer answers to HasSynced(): true selects the lister branch
-// of syncPods, false the branch that lists pods through client.
+// podInformerSynced is the initial state of the stand-in pod informer: true = already synced (the lister
+// branch of syncPods); false = not started yet, as in a daemon that has not seen any NetworkPolicy since it
+// started (syncPods then lists this node's pods through client) until the policy lister shows a policy.
 func VerifNew(ipsetHandle ipset.Interface, iptableHandle utiliptables.Interface, client kubernetes.Interface,
 	podLister corev1Lister.PodLister, namespaceLister corev1Lister.NamespaceLister,
 	policyLister networkingv1Lister.NetworkPolicyLister, hostName string, podInformerSynced bool) *PolicyManager {
@@ -58,8 +78,11 @@ func VerifNew(ipsetHandle ipset.Interface, iptableHandle utiliptables.Interface,
 		podLister:         podLister,
 		namespaceLister:   namespaceLister,
 		policyLister:      policyLister,
-		podCachedInformer: verifSyncedInformer{synced: podInformerSynced},
+		podCachedInformer: verifSyncedInformer{synced: new(int32), policyLister: policyLister},
 		quitChan:          make(chan struct{}),
+	}
+	if podInformerSynced {
+		atomic.StoreInt32(pm.podCachedInformer.(verifSyncedInformer).synced, 1)
 	}
 	pm.podInformerOnce.Do(func() {})
 	return pm
